@@ -165,6 +165,9 @@ func c08ProcExecute(c *core.Case, variant, k int, kind string, log bool) (*c08pr
 		w.b.DB.KillIncarnation(old.App)
 		np, err := w.b.StartProc(work, old.RPCPort, old.RESTPort)
 		if err != nil {
+			if bed.Environmental(err) {
+				return "INCONCLUSIVE", "the new server process did not start for a reason of time or transport: " + err.Error()
+			}
 			return "restart-failed", "a new server process cannot start on the store left by the kill: " + err.Error()
 		}
 		pmu.Lock()
